@@ -165,7 +165,7 @@ func (w *world) checkCrashImage(seq *Seq, k, opIdx int, img db.KeyValueStore, wi
 	}
 	enc, notes := w.decodeImage(img)
 	ev := strings.Fields(or.Ask("eval "+fmt.Sprintf("%x", W)+" ; "+enc, 1)[0])
-	if len(ev) != 4 {
+	if len(ev) != 5 {
 		hx.Fatalf("oracle reply: %q", ev)
 	}
 	var mp, mflags []string
@@ -177,7 +177,7 @@ func (w *world) checkCrashImage(seq *Seq, k, opIdx int, img db.KeyValueStore, wi
 		}
 		mflags = strings.Fields(mp[1])
 	}
-	consistent := ev[0] == "1" && len(notes) == 0
+	consistent := ev[0] == "1" && ev[4] == "1" && len(notes) == 0
 	// observations on a fresh process (behind a counting proxy: its initialisation may write), which finally
 	// stores the next block
 	probe := faultdb.New(img)
@@ -221,7 +221,7 @@ func (w *world) checkCrashImage(seq *Seq, k, opIdx int, img db.KeyValueStore, wi
 	if mflags[3] != "1" {
 		// the generator respects the environmental clauses of ops_ok, so this can only be the mem_sync clause:
 		// a revert of a window's last block with the in-memory filter not in sync (e.g. after a restart)
-		c.Violation("hypothesis:ops-ok-false", what+"the model's ops_ok (hypothesis of C05_crash) is false for this generated history", cs, true)
+		c.Violation("hypothesis:ops-env-false", what+"the generator produced a history outside ops_env (revert onto a pruned block / prune of the head)", cs, true)
 	}
 	if (mflags[1] == "1") != (nsErr == nil) {
 		c.Violation("model-mismatch:recover-ready", what+fmt.Sprintf("model recover_ready=%s, next store error=%v", mflags[1], nsErr), cs, true)
